@@ -65,6 +65,7 @@ pub struct Run {
     /// read-call indices that directly followed a buffer roll
     pub reads_after_roll: Vec<usize>,
     pub probe_read_filled_buffer: u64,
+    pub first_read_offer: Option<usize>,
     pub probe_short_write: u64,
     pub probe_write_interrupted: u64,
     pub probe_write_fault_in_closure: u64,
@@ -473,6 +474,7 @@ pub fn run_once_shared(
         boundaries: std::mem::take(&mut aux.boundaries),
         reads_after_roll: std::mem::take(&mut aux.reads_after_roll),
         probe_read_filled_buffer: w.probe_read_filled_buffer,
+        first_read_offer: w.first_read_offer,
         probe_short_write: w.probe_short_write,
         probe_write_interrupted: w.probe_write_interrupted,
         probe_write_fault_in_closure: w.probe_write_fault_in_closure,
